@@ -29,14 +29,15 @@ type Resp struct {
 }
 
 const (
-	rLine    = "line"
-	rOptions = "options"
-	rEnd     = "end"
-	rWaiting = "waiting"
-	rError   = "error"
-	rAny     = "any" // model: the properties leave the outcome open (value or error), only "no panic"
-	rPanic   = "panic"
-	rHang    = "hang"
+	rLine      = "line"
+	rOptions   = "options"
+	rEnd       = "end"
+	rWaiting   = "waiting"
+	rError     = "error"
+	rAny       = "any" // model: the properties leave the outcome open (value or error), only "no panic"
+	rPanic     = "panic"
+	rHostPanic = "hostpanic" // a panic raised by the host's own function came back to the host through Next
+	rHang      = "hang"
 )
 
 // mErr is a model-side evaluation failure.
